@@ -136,6 +136,18 @@ type Case struct {
 	Prog   int    `json:"prog"`
 	Site   int    `json:"site"`
 	Header string `json:"header"` // sensitive header name as spelled on the request ("" = none)
+	// Ctx: state of the request's context.Context at the time of the panic: 0 live; 1 the request arrived with a
+	// cancelled context; 2 the panicking handler attached a request with a cancelled context (Context.SetRequest,
+	// as a timeout middleware does) before panicking. A done context is not a broken connection.
+	Ctx int `json:"ctx,omitempty"`
+}
+
+var ctxNames = [...]string{"live request context", "request context cancelled on arrival", "handler attached a cancelled request context"}
+
+func cancelledCtx() context.Context {
+	ctx, cancel := context.WithCancel(context.Background())
+	cancel()
+	return ctx
 }
 
 // flushRW is an RW that supports flushing.
@@ -153,6 +165,9 @@ func evalCase(cs Case) (class, msg string) {
 	cap := &capture{}
 	thrown := pv.mk()
 	boom := func(c fox.Context) {
+		if cs.Ctx == 2 {
+			c.SetRequest(c.Request().WithContext(cancelledCtx()))
+		}
 		switch cs.Prog {
 		case progHeader:
 			c.Writer().WriteHeader(202)
@@ -233,6 +248,9 @@ func evalCase(cs Case) (class, msg string) {
 	}
 	rq := fx.Req(method, "example.test", path)
 	rq.URL.RawQuery = "q=1"
+	if cs.Ctx == 1 {
+		rq = rq.WithContext(cancelledCtx())
+	}
 	rq.Header["X-Ordinary"] = []string{"ordinary-value"}
 	rq.Header["accept"] = []string{"lowercase-ordinary"}
 	secret := "SECRET-" + cs.Header + "-VALUE"
@@ -244,7 +262,7 @@ func evalCase(cs Case) (class, msg string) {
 	if cs.Prog == progFlush {
 		under = flushRW{rw}
 	}
-	desc := fmt.Sprintf("panic(%s) in the %s after %s, sensitive header %q", pv.name, siteNames[cs.Site], progNames[cs.Prog], cs.Header)
+	desc := fmt.Sprintf("panic(%s) in the %s after %s, sensitive header %q, %s", pv.name, siteNames[cs.Site], progNames[cs.Prog], cs.Header, ctxNames[cs.Ctx])
 	var escaped any
 	didPanic := false
 	func() {
@@ -518,12 +536,14 @@ func run(c *mc.Ctx, r *mc.Result) {
 					if !c.Mine(idx) {
 						continue
 					}
-					cs := Case{Val: vi, Prog: prog, Site: site, Header: h}
-					class, msg := evalCase(cs)
-					r.Evaluations++
-					r.DistinctNontrivial++
-					if class != "" {
-						r.Violate("faults", class, msg, cs)
+					for cx := range ctxNames {
+						cs := Case{Val: vi, Prog: prog, Site: site, Header: h, Ctx: cx}
+						class, msg := evalCase(cs)
+						r.Evaluations++
+						r.DistinctNontrivial++
+						if class != "" {
+							r.Violate("faults", class, msg, cs)
+						}
 					}
 				}
 			}
